@@ -1243,7 +1243,8 @@ PROPS["C06"]["run"] = run_S_and_G_C06
 reg("C07", ["Props.C07_cp_is_own_plus_distinct_descendants", "GM.C07_cp_order_independent", "GM.mem_descAll_iff",
             "GM.descAll_nodup", "Props.C07_pinned_counts_paths", "GM.C07_pinned_order_dependent",
             "Props.C07_next_pick_is_determined", "Props.C07_pick_unique",
-            "Props.C07_configuration_law", "Props.C07_configuration_refused_iff", "Props.C07_configuration_idempotent"],
+            "Props.C07_configuration_law", "Props.C07_configuration_refused_iff", "Props.C07_configuration_idempotent",
+            "Props.C07_refused_configuration_changes_nothing", "Props.C07_retry_after_refusal"],
     run_G, ASSUME_G)
 reg("C12", ["GM.C12_closure", "Props.C12_selection_is_closure", "GM.selectNodes_none", "GM.mem_descAll_iff", "Props.C12_restriction_keeps_values", "Props.C12_alias_tag_wins", "Props.C12_alias_id", "Props.C12_alias_unknown_refused", "Props.C12_alias_list_is_union", "Props.C12_alias_list_refused_iff", "Props.C12_unselected_nodes_keep_their_value", "Props.C12_targets_only"], run_G, ASSUME_G)
 
